@@ -15,6 +15,14 @@ class Facts:
             self.fns[f["path"]] = f
             for p in f.get("promoted", []):
                 self.fns[p["path"]] = p
+        # SwitchInt target values are raw bit patterns: make them signed for signed discriminant types
+        bits = {"i8": 8, "i16": 16, "i32": 32, "i64": 64, "isize": 64, "i128": 128}
+        for f in self.fns.values():
+            for b in f["blocks"]:
+                t = b["term"]
+                if t["k"] == "switch" and t.get("discr_ty") in bits:
+                    n = bits[t["discr_ty"]]
+                    t["targets"] = [[str(int(v) - (1 << n) if int(v) >> (n - 1) else int(v)), bb] for v, bb in t["targets"]]
         self.consts = {c["path"]: c for c in self.raw["consts"]}
         self.statics = {s["path"]: s for s in self.raw["statics"]}
         self.adts = {a["path"]: a for a in self.raw["adts"]}
